@@ -338,7 +338,7 @@ def token_bytes(doc):
 def run(ctx):
     import vlib
     rng = ctx.rng
-    ndocs = ctx.scale(1600, 20000)
+    ndocs = ctx.scale(3000, 20000)
     groups = []
     impl_cases, spec_cases = [], []
     for _ in range(ndocs):
